@@ -418,6 +418,8 @@ func c16FixedUniverse(g *c16Gen) []string {
 		// opaque objects
 		"O1;", "O2;", "O1;",
 	}
+	// machine boundaries of the integer/float conversions (c16_bound.go)
+	u = append(u, c16BoundUniverse(g)...)
 	return u
 }
 
@@ -436,7 +438,10 @@ func (g *c16Gen) randomLeaf() string {
 		}
 		return big.NewRat(n, den)
 	}
-	switch r.Intn(12) {
+	switch r.Intn(13) {
+	case 12:
+		// machine boundaries (wrap/saturation aliases of the integer/float conversions)
+		return g.boundaryLeaf()
 	case 0, 1:
 		v := small()
 		if v.IsInt() {
